@@ -19,6 +19,17 @@ def texts(toks):
 def run(chk):
     th = build("asan")
     L = 6 if chk.thorough else 5
+    n, cases = extract_leg(chk, th, L)
+    chk.cov["traces_validated_against_impl"] = n
+    chk.cov["exhaustive"] = True
+    chk.cov["rule"] = ("all token streams of <= %d tokens over DEFINE, PRIO, an integer, AS, ENDDEF, an identifier, $0, $1, <V>: passed-on tokens, "
+                       "kept definitions (priority, pattern, body with invalid insertions replaced) and errors by type and position" % L)
+    chk.sample({"stream": _seq(cases[len(cases) // 2]["toks"]), "expected": {k: cases[len(cases) // 2][k] for k in ("out", "errs", "macros")}})
+    log("X01: %d streams compared" % n)
+
+
+def extract_leg(chk, th, L):
+    """all token streams of <= L tokens through TheoExtract and Theo::extract_macros; returns (#compared, cases)"""
     res = tlc("TheoExtract", "SPECIFICATION Spec\nINVARIANT OutOK PosBound\nPROPERTY Terminates\nCHECK_DEADLOCK FALSE\n", chk.pid, "enum",
               env={"EXLEN": L}, timeout=3000, xmx="16g")
     if not require_ok(res, "TheoExtract"):
@@ -53,9 +64,4 @@ def run(chk):
                 chk.violation("x01:%s" % " ".join(_seq(c["toks"])),
                               "extract_macros disagrees with TheoExtract on  %s : tokens %s / %s; errors %s / %s; definitions %s / %s (specification / code)"
                               % (" ".join(_seq(c["toks"])), exp_out, act_out, exp_errs, act_errs, exp_defs, act_defs), {"input": j})
-    chk.cov["traces_validated_against_impl"] = n
-    chk.cov["exhaustive"] = True
-    chk.cov["rule"] = ("all token streams of <= %d tokens over DEFINE, PRIO, an integer, AS, ENDDEF, an identifier, $0, $1, <V>: passed-on tokens, "
-                       "kept definitions (priority, pattern, body with invalid insertions replaced) and errors by type and position" % L)
-    chk.sample({"stream": _seq(cases[len(cases) // 2]["toks"]), "expected": {k: cases[len(cases) // 2][k] for k in ("out", "errs", "macros")}})
-    log("X01: %d streams compared" % n)
+    return n, cases
